@@ -231,6 +231,75 @@ theorem C09_unique (t : Tables) (S : List String) (f f' : Nat) (m : String) (c c
   obtain ⟨hu', hm'⟩ := C09_spec t S f' m c' h'
   exact isUnfold_unique t S c c' hu hu' (hm.trans hm'.symm)
 
+/-! ### existence: acyclic tables always unfold -/
+
+/-- acyclicity witnessed by a rank: a daughter that has a table has a smaller rank than the mother -/
+def AcyclicT (t : Tables) (rank : String → Nat) : Prop :=
+  ∀ m m' ls, t.find? (·.1 == m) = some (m', ls) → ∀ ln ∈ ls, ∀ p ∈ ln.ds, hasTable t p = true → rank p < rank m
+
+theorem buildItems_ok (rec : String → Except SemErr (Chain LInfo)) (S : List String) :
+    ∀ ds, (∀ p ∈ ds, S.contains p = true ∨ (∃ c, rec p = .ok c) ∨ (∃ x, rec p = .error (.decayNotFound x))) →
+      ∃ fs, buildItems rec S ds = .ok fs
+  | [], _ => ⟨[], rfl⟩
+  | p :: r, h => by
+    obtain ⟨fr, hfr⟩ := buildItems_ok rec S r (fun q hq => h q (List.mem_cons_of_mem _ hq))
+    simp only [buildItems, hfr, Except.map]
+    by_cases hS : S.contains p = true
+    · exact ⟨_, by rw [if_pos hS]⟩
+    · rw [if_neg hS]
+      rcases h p List.mem_cons_self with hS' | ⟨c, hc⟩ | ⟨x, hx⟩
+      · exact absurd hS' hS
+      · exact ⟨_, by rw [hc]⟩
+      · exact ⟨_, by rw [hx]⟩
+
+theorem buildLines_ok (rec : String → Except SemErr (Chain LInfo)) (S : List String) :
+    ∀ ls : List Line, (∀ ln ∈ ls, ∃ fs, buildItems rec S ln.ds = .ok fs) → ∃ ms, buildLines rec S ls = .ok ms
+  | [], _ => ⟨[], rfl⟩
+  | ln :: r, h => by
+    obtain ⟨fs, hfs⟩ := h ln List.mem_cons_self
+    obtain ⟨mr, hmr⟩ := buildLines_ok rec S r (fun l hl => h l (List.mem_cons_of_mem _ hl))
+    exact ⟨(infoOf ln, fs) :: mr, by simp [buildLines, hfs, hmr, Except.map]⟩
+
+/-- C09 (existence): for acyclic tables the chain of every particle with a table exists, for every
+    stable set, as soon as the fuel exceeds the particle's rank -/
+theorem C09_exists (t : Tables) (S : List String) (rank : String → Nat) (hac : AcyclicT t rank) :
+    ∀ (f : Nat) (m : String), hasTable t m = true → rank m < f → ∃ c, buildChains t S f m = .ok c
+  | 0, m, _, hr => absurd hr (Nat.not_lt_zero _)
+  | f + 1, m, ht, hr => by
+    simp only [buildChains]
+    cases hfind : t.find? (·.1 == m) with
+    | none => simp [hasTable, hfind] at ht
+    | some p =>
+      obtain ⟨m', ls⟩ := p
+      simp only
+      have hlines : ∃ ms, buildLines (fun p => buildChains t S f p) S ls = .ok ms := by
+        apply buildLines_ok
+        intro ln hln
+        apply buildItems_ok
+        intro p hp
+        by_cases hS : S.contains p = true
+        · exact Or.inl hS
+        · by_cases htp : hasTable t p = true
+          · have hrk := hac m m' ls hfind ln hln p hp htp
+            obtain ⟨c, hc⟩ := C09_exists t S rank hac f p htp (by omega)
+            exact Or.inr (Or.inl ⟨c, hc⟩)
+          · have hnt : hasTable t p = false := by simpa using htp
+            exact Or.inr (Or.inr ⟨p, C09_notfound t S f p hnt⟩)
+      obtain ⟨ms, hms⟩ := hlines
+      exact ⟨.mk m ms, by rw [hms]; rfl⟩
+
+/-- total correctness: for acyclic tables `build_decay_chains` returns the one chain that is the
+    recursive unfolding of the tables -/
+theorem C09_total (t : Tables) (S : List String) (rank : String → Nat) (hac : AcyclicT t rank)
+    (m : String) (ht : hasTable t m = true) :
+    ∃ c, isUnfold t S c = true ∧ c.mother = m ∧ ∀ f, rank m < f → buildChains t S f m = .ok c := by
+  obtain ⟨c, hc⟩ := C09_exists t S rank hac (rank m + 1) m ht (Nat.lt_succ_self _)
+  obtain ⟨hu, hm⟩ := C09_spec t S _ m c hc
+  refine ⟨c, hu, hm, ?_⟩
+  intro f hf
+  obtain ⟨c', hc'⟩ := C09_exists t S rank hac f m ht hf
+  rw [hc', C09_unique t S f (rank m + 1) m c' c hc' hc]
+
 /-- non-vacuity: A -> B c | c c ; B -> c d ; c -> e e, with S = [c] -/
 def exTables : Tables :=
   [("A", [⟨1, ["B", "c"], false, "PHSP", none⟩, ⟨1, ["c", "c"], true, "VSS", some [.num 1]⟩]),
